@@ -1082,7 +1082,9 @@ def _zip_fn():
         if len(a) == 2 and not k and all(isinstance(x, (SeqV, IterV)) for x in a):
             n = p.fresh_int('zip.len')
             p.assume(And(a[0].length >= 0, a[1].length >= 0, n >= 0, n <= a[0].length, n <= a[1].length, Or(n == a[0].length, n == a[1].length)))
-            return IterV(lambda t, _a=a: TupleV([_a[0].at(t), _a[1].at(t)]), n, 'zip')
+            r = IterV(lambda t, _a=a: TupleV([_a[0].at(t), _a[1].at(t)]), n, 'zip')
+            r.sources = list(a)        # what is zipped (a clause may read off WHICH sequences a loop walks in step)
+            return r
         if all(isinstance(x, (TupleV, ListV)) for x in a):
             return ListV([TupleV(list(t)) for t in zip(*[x.items for x in a])])
         raise Unsupported('zip%r' % (a,))
@@ -1140,8 +1142,17 @@ def _pair_eq_unit():
             def same_upto(a, k):
                 return ForAll([t], Implies(And(0 <= t, t < k), next_['s', a](t) == next_['o', a](t)), patterns=[next_['s', a](t), next_['o', a](t)])
 
+            def walked(e):
+                """which neighbor lists the inner loop compares: read off its iterable (zip of the own and the other's list of ONE of the
+                two attributes, in either order), not off the name of a local"""
+                src = getattr(e._path.ghost.get('iter#%s' % inner), 'sources', None) or []
+                for a in ATTS:
+                    if is_concept and len(src) == 2 and {id(x) for x in src} == {id(this.fields[a]), id(other.fields[a])}:
+                        return a
+                raise Unsupported('the inner loop of Pair._eq does not walk the two neighbor lists of one attribute in step')
+
             def inv(e, k):
-                return [('neighbors-agree-so-far', same_upto(e.val('attname').value, k))]
+                return [('neighbors-agree-so-far', same_upto(walked(e), k))]
             inner = _loop_ordinal(LM, 'Pair._eq', lambda n, parents: isinstance(n, _ast.For) and len(parents) == 1, optional=True)
             g = dict(lib.builtins(), Concept=ClassV('Concept'), NotImplemented=NotImpl, getattr=_getattr_fn(), zip=_zip_fn())
 
